@@ -59,6 +59,23 @@ def run(report, index, tier):
     build = lmeth.get('build')
     if init is None or build is None:
         raise AnalysisError('Parser.__init__ / Lexer.build vanished')
+    # R17.5: nothing built for one parser is kept for the next one.  A
+    # parser made from cached tables is constructed *after* the tables (and
+    # usually other parsers) exist in the process; if construction reads
+    # objects an earlier construction left behind, the two kinds differ by
+    # history.
+    from .c15 import persistent_state_writes
+    r5 = report.rule('R17.5', 'constructing a Parser / Lexer writes no '
+                     'module-level, class-level, captured or default-'
+                     'argument state (no lexer or table object is cached '
+                     'by the repository itself)', floor=100)
+    found, nsites = persistent_state_writes([pm, lm])
+    for key, construct, msg, where in found:
+        r5.fail(key, construct, msg + '; a parser built later (in '
+                'particular one built from the cached table modules) '
+                'shares it', where=where)
+    for _ in range(max(0, nsites - len(found))):
+        r5.ok('write site', 'local / per instance')
     r1 = report.rule('R17.1', 'everything that determines the language '
                      'reaches ply identically in every configuration; '
                      'flags and table names pass through unchanged '
